@@ -15,7 +15,11 @@ WORDS = ["a", "b", "c", "foo", "bar", "x1", "héllo", "\\AND", "ANDx", "and", "o
          # not in NFC / NFKC normal form (a parser that normalises its input shifts every later position)
          "cafe\u0301", "e\u0301x", "\u1100\u1161", "a\u030a", "\ufb01n", "\u2126", "x\u00b2",
          # escaped blank at the end / start of the word
-         "foo\\ ", "\\ a\\ "]
+         "foo\\ ", "\\ a\\ ",
+         # spellings other query languages use for the operators (plain words here), signs before two digits,
+         # lower-case look-alikes of the time and operator syntax, numbers with an offset
+         "&&", "||", "!", "a&&b", "zone-12", "level+10", "15", "45", "2015-12-19t22:30:45z", "t22:30",
+         "2015-12-19T22:30:45+02:00", "iso-8859-15"]
 PHRASES = ['"cafe\u0301 e\u0301"', '"a b"', '""', '"a\\"b"', '"x:y"', '"AND"', '"a (b) [c]"', '"é ü"', '" lead"', '"t\\\\"',
            '"a\tb"', '"wild*"']
 PHRASES_NL = ['"a\nb"']
@@ -29,7 +33,7 @@ NUMS_LONG = ["1234567890123456789012345678901", "0.12345678901234567890123456789
 NUMS_BAD = [".", "1.2.3", "..", "1..2"]
 INTS = ["", "", "1", "2", "03", "10", "0"]
 FIELDS = ["f", "title", "a.b", "author.name", "f1", "x_y", "été", "a\\:b", "f-g", "*", "a.b.c", "T12", "part12",
-          "t07", "xT30", "nom\u0301"]
+          "t07", "xT30", "nom\u0301", "zone-12", "level+10", "iso-8859-15", "room"]
 
 
 class QueryGen:
@@ -373,7 +377,25 @@ def mutate_tree(rng, d):
         node["p"] = (node["p"] or 0) + 1
         node["s"] = (node["s"] or 0) + 2
     elif k == "value":
-        if c == "Word":
+        inner = node["v"] if c == "Word" else node["v"][1:-1]
+        kk = rng.random()
+        if inner and kk < 0.3:
+            # the same text with one more / one less escaping backslash, another case, a blank doubled: values that
+            # a lossy comparison (unescaped, case-folded, blank-normalised) would take for equal (seeded C09-G)
+            i = rng.randrange(len(inner))
+            how = rng.choice(["escape", "escape", "case", "blank"])
+            if how == "escape":
+                inner2 = inner[:i] + "\\" + inner[i:]
+                if inner[i] == "\\" and i + 1 < len(inner):
+                    inner2 = inner[:i] + inner[i + 1:]
+            elif how == "case":
+                inner2 = inner.swapcase() if inner.swapcase() != inner else inner + "X"
+            else:
+                inner2 = inner.replace(" ", "  ", 1) if " " in inner else inner + "\\ "
+            if inner2 == inner or (c != "Word" and inner2.endswith("\\") and not inner2.endswith("\\\\")):
+                inner2 = inner + "x"
+            node["v"] = inner2 if c == "Word" else node["v"][0] + inner2 + node["v"][-1]
+        elif c == "Word":
             node["v"] += "x"
         else:
             node["v"] = node["v"][:-1] + "x" + node["v"][-1:]
